@@ -327,19 +327,30 @@ Section RStep.
     repeat split; simpl; try reflexivity. apply scopes_like_refl.
   Qed.
 
-  Lemma r_params_frames ps : forall s s1 l loc, r_params ps s = (s1, l, loc) -> frames s s1.
+  Lemma pop_star_frames s s1 l : pop_star s = Some (s1, l) -> frames s s1.
   Proof.
-    induction ps as [|[n|x] r IH]; intros s s1 l loc H; simpl in H.
+    unfold pop_star. destruct (pop1 s) as [sa v] eqn:E. apply pop1_frames in E.
+    destruct v as [z| |]; try discriminate. destruct (z >? 5000)%Z; try discriminate.
+    intro H. inversion H as [H1]. apply popn_frames in H1. eapply frames_trans; eauto.
+  Qed.
+
+  Lemma r_params_frames ps : forall s s1 l loc, r_params ps s = XOk (s1, l, loc) -> frames s s1.
+  Proof.
+    induction ps as [|[n|x|] r IH]; intros s s1 l loc H; simpl in H.
     - inversion H; subst. apply frames_refl.
-    - destruct (popn n s) as [sa popped] eqn:E1. destruct (r_params r sa) as [[sb more] lc] eqn:E2.
+    - destruct (popn n s) as [sa popped] eqn:E1. destruct (r_params r sa) as [[[sb more] lc]| |] eqn:E2; try discriminate.
       inversion H; subst. eapply frames_trans; [eapply popn_frames; eauto|eapply IH; eauto].
-    - destruct (pop1 s) as [sa v] eqn:E1. destruct (r_params r sa) as [[sb more] lc] eqn:E2.
+    - destruct (pop1 s) as [sa v] eqn:E1. destruct (r_params r sa) as [[[sb more] lc]| |] eqn:E2; try discriminate.
       inversion H; subst. eapply frames_trans; [eapply pop1_frames; eauto|eapply IH; eauto].
+    - destruct (pop_star s) as [[sa popped]|] eqn:E1; try discriminate. simpl in H.
+      destruct (r_params r sa) as [[[sb more] lc]| |] eqn:E2; try discriminate.
+      inversion H; subst. eapply frames_trans; [eapply pop_star_frames; eauto|eapply IH; eauto].
   Qed.
 
   Lemma keeps2_r_named c s : keeps2 (r_named rec c s) s.
   Proof.
-    unfold r_named. destruct (r_params (c_params c) s) as [[s1 ps] loc] eqn:E. apply r_params_frames in E.
+    unfold r_named. destruct (r_params (c_params c) s) as [[[s1 ps] loc]| |] eqn:E; simpl; try exact I.
+    apply r_params_frames in E.
     unfold with_stack, with_locals, with_context, with_scope, with_registered, bracket. simpl.
     match goal with |- context [rec (c_body c) ?S0] => pose proof (Hrec (c_body c) S0) as K; destruct (rec (c_body c) S0) as [s2| |] end;
       simpl; try exact I.
